@@ -242,7 +242,14 @@ impl Model for C04Model {
             // duplicates / extras are safety; completeness is checked after
             // the continuation below
             if p.contains("extra") {
-                v.push(("payload".into(), p));
+                // where tasks are explicit steps, a payload that was just
+                // removed from the configuration stays published until the
+                // CA's repository synchronisation (a queued task) has run
+                let sync_outstanding = (self.stepwise || self.raw)
+                    && w.pending_tasks().iter().any(|(_, n)| n.starts_with("sync_repo_") || n == "update_rrdp_if_needed");
+                if !sync_outstanding {
+                    v.push(("payload".into(), p));
+                }
             }
         }
         let ks = key_states(w, &self.roller);
